@@ -193,6 +193,8 @@ func (this *RaftGroup) run() {
 			}
 		case <-ticker.C:
 			this.raft.Tick()
+		case fn := <-this.verifLoopC():
+			fn(lastAppliedIdx)
 		case rd := <-this.raft.Ready():
 			if rd.SoftState != nil {
 				this.raftLeaderId = atomic.LoadUint64(&rd.SoftState.Lead)
